@@ -45,7 +45,7 @@ def snapshot_of(v):
 OPS = [
     "add", "add_str", "radd_str", "mul", "slice", "index", "splice", "splice_str", "append", "join", "split", "splitlines",
     "ljust", "rjust", "cwna", "removed", "cwns", "was", "wasl_full", "wasl_partial", "strmeth", "rewrap", "copy", "observe",
-    "mutate", "observe_all", "noise",
+    "mutate", "observe_all", "noise", "setitem", "setslice",
 ]
 STRMETHS = [("upper", ()), ("strip", ()), ("center", (7,)), ("replace", ("a", "bb")), ("title", ()), ("rsplit", (" ",)), ("lower", ())]
 MUTATORS = ["setitem", "update", "delitem", "pop", "popitem", "clear", "setdefault", "ior", "fmtstr_setitem"]
@@ -153,6 +153,11 @@ def run_case(case):
                 out = a.splice(s, k % (la + 1))
             elif name == "append":
                 out = a.append(b)
+            elif name == "setitem":
+                out = a.setitem(k % la, s[:1] or "q") if la else None
+            elif name == "setslice":
+                lo = k % (la + 1)
+                out = a.setslice_with_length(lo, min(la, lo + 2), s, la + 4)
             elif name == "join":
                 items = [b, s, pool[k % n], b]
                 # any iterable will do: list, tuple, one-shot generator, iterator
